@@ -41,7 +41,17 @@ func calleeRegion(a *analysis, r *region, ipr *ipResult) {
 	body := &wbody{label: "callees", multi: true}
 	r.bodies = append(r.bodies, body)
 	for _, f := range ipr.facts {
-		key := fmt.Sprintf("%s|%s|%v|%c|%s|%v", f.fn.label, f.path, f.elem, f.rw, f.cls, f.sync)
+		heldNow := ""
+		if f.cls == "unguarded" {
+			// the locks this access does hold (a known finding pins them: a writer that loses its lock is a new fact)
+			var hs []string
+			for h := range f.held {
+				hs = append(hs, h)
+			}
+			sort.Strings(hs)
+			heldNow = strings.Join(hs, " + ")
+		}
+		key := fmt.Sprintf("%s|%s|%v|%c|%s|%v|%s", f.fn.label, f.path, f.elem, f.rw, f.cls, f.sync, heldNow)
 		if seen[key] {
 			continue
 		}
@@ -63,10 +73,30 @@ func calleeRegion(a *analysis, r *region, ipr *ipResult) {
 				ac.how = f.guard
 			}
 		default:
-			ac.how = strings.TrimSpace(f.how)
+			ac.how = heldNow
 		}
 		r.acc = append(r.acc, ac)
 	}
+	// ordered by location, function, access, lock: the order does not depend on where the functions stand in their files
+	sort.SliceStable(r.acc, func(i, j int) bool {
+		a, b := r.acc[i], r.acc[j]
+		if a.path != b.path {
+			return a.path < b.path
+		}
+		if a.elem != b.elem {
+			return !a.elem
+		}
+		if a.fn != b.fn {
+			return a.fn < b.fn
+		}
+		if a.rw != b.rw {
+			return a.rw < b.rw
+		}
+		if a.cls != b.cls {
+			return a.cls < b.cls
+		}
+		return a.how < b.how
+	})
 	if len(ipr.facts) > 0 {
 		r.pos = ipr.facts[0].pos
 	}
